@@ -192,6 +192,9 @@ func (i *Interpreter) executeFieldAssign(objName, fieldPath string, valueExpr Ex
 	if err != nil {
 		return nil, fmt.Errorf("cannot assign to field of undeclared variable '%s'", objName)
 	}
+	if i.IsConstant(objName) {
+		return nil, fmt.Errorf("cannot assign to field '%s' of constant '%s'", fieldPath, objName)
+	}
 
 	obj, ok := objVal.(map[string]interface{})
 	if !ok {
